@@ -14,6 +14,8 @@ from ..project import agent as proj
 
 KIND_ARGS = {"none": dict(no_mutation=1, architecture=0, new_layer_prob=0.5, parameters=0, activation=0, rl_hp=0),
              "arch": dict(no_mutation=0, architecture=1, new_layer_prob=0.5, parameters=0, activation=0, rl_hp=0),
+             # layer mutations only (add_layer / remove_layer and their fall-backs at the bounds); recorded as kind "arch"
+             "archl": dict(no_mutation=0, architecture=1, new_layer_prob=1.0, parameters=0, activation=0, rl_hp=0),
              "param": dict(no_mutation=0, architecture=0, new_layer_prob=0.5, parameters=1, activation=0, rl_hp=0),
              "act": dict(no_mutation=0, architecture=0, new_layer_prob=0.5, parameters=0, activation=1, rl_hp=0),
              "hp": dict(no_mutation=0, architecture=0, new_layer_prob=0.5, parameters=0, activation=0, rl_hp=1)}
@@ -117,6 +119,7 @@ class Runner:
         v = {"idx": sn["index"], "mut": "None" if sn["mut"] is None else str(sn["mut"]),
              "hp": [I("hp", [n, sn["hp"].get(n)]) for n in sh["hpnames"]],
              "arch": [I("arch", sn["nets"][n]["arch"]) for n in nets],
+             "acfg": [I("acfg", sn["nets"][n]["cfg"]) for n in nets],
              "w": [I("w", sn["nets"][n]["w"]) for n in nets],
              "opt": [I("opt", sn["opts"][o]["state"]) for o in sh["opts"]],
              "coherent": [bool(sn["opts"][o]["coherent"]) for o in sh["opts"]],
@@ -202,7 +205,7 @@ class Runner:
             zoo.learn(self.slots[a], algo, b)
         elif op[0] == "mutate":
             _, a, kind = op
-            e.update({"a": a, "k": kind, "h": 0, "can_act": False})
+            e.update({"a": a, "k": ("arch" if kind == "archl" else kind), "h": 0, "can_act": False})
             ag = self.slots[a]
             zoo.seed_all(self.seed * 31 + len(self.ev))
             out = self.mutations_for(kind).mutation([ag])
